@@ -170,6 +170,12 @@ def main():
         tr = None if mode == 0 else (tu if mode == 1 else gens.random_text(rng, sub)[0])
         cases.append(make_case(ck, tu, tr, rng.randint(0, 1), rng.randint(0, 2),
                                'random-' + ['ascii1', 'prefixy', 'ipa', 'marker'][k % 4]))
+    # a training text that is given but holds no bigram (no line, one blank line, one unit): every pair of the
+    # text is then unseen (dependency 0); it must not be mistaken for "no training text"
+    for tu in [t for t in gens.exhaustive_texts(['a', 'b'], 4, 2)] + [gens.random_text(rng, ['a', 'b', 'c'], nutts=rng.randint(1, 5))[0] for _ in range(20)]:
+        for tr in ([], [[]], [['a']]):
+            for ti in range(2):
+                cases.append(make_case(ck, tu, tr, ti, rng.randint(0, 2), 'empty-train'))
     for alpha in ('ascii1', 'ipa', 'marker'):
         for tu in gens.degenerate_texts(gens.ALPHABETS[alpha]):
             for ti in range(2):
